@@ -1608,11 +1608,11 @@ Proof.
   unfold WF. intros W. unfold do_tick.
   match goal with |- context [let '(h1, o1) := ?X in _] => destruct X as [h1 o1] eqn:H1 end.
   assert (W1 : WFg none2 none1 h1).
-  { destruct (30 <? secs); [|injection H1 as <- <-; exact W].
+  { destruct (hub_expire_s <? secs); [|injection H1 as <- <-; exact W].
     rewrite (fst_eq _ _ _ H1). apply wf_fold_sessions; [exact W|]. intros. now apply wf_close_session. }
   match goal with |- context [let '(h2, o2) := ?X in _] => destruct X as [h2 o2] eqn:H2 end.
   assert (W2 : WFg none2 none1 h2).
-  { destruct (10 <? secs); [|injection H2 as <- <-; exact W1].
+  { destruct (hub_anonymous_s <? secs); [|injection H2 as <- <-; exact W1].
     rewrite (fst_eq _ _ _ H2). apply wf_fold_sessions; [exact W1|]. intros hh sid Hhh.
     destruct (get_sess hh sid) as [s|]; [|exact Hhh].
     match goal with |- context [let '(h3, o3) := ?X in _] => destruct X as [h3 o3] eqn:H3 end.
@@ -1620,7 +1620,7 @@ Proof.
     { destruct (s_conn s); [|injection H3 as <- <-; exact Hhh]. rewrite (fst_eq _ _ _ H3). now apply wf_send_conn. }
     destruct (close_session h3 sid) as [h4 o4] eqn:H4. cbn [fst]. rewrite (fst_eq _ _ _ H4). now apply wf_close_session. }
   match goal with |- context [let '(h3, o3) := ?X in _] => destruct X as [h3 o3] eqn:H3 end.
-  cbn [fst]. destruct (2 <? secs); [|injection H3 as <- <-; exact W2].
+  cbn [fst]. destruct (hub_hello_s <? secs); [|injection H3 as <- <-; exact W2].
   rewrite (fst_eq _ _ _ H3). apply wf_fold_sessions; [exact W2|]. intros. now apply wf_send_conn.
 Qed.
 
